@@ -41,8 +41,41 @@ func pickSets(r *common.Rand, spec string) []c09lab.OptionSet {
 	return out
 }
 
+// specsFor: the run specifications of one history.  Members of a fixture family with gate orders run the
+// multi-fetch x scheduler combination under every order (each provider answers last once), plus the default set,
+// the ungated combination and two drawn option sets under a drawn order; interface-hop families always include
+// the set that differs from the default in de-duplication only.
+func specsFor(r *common.Rand, fx *c09lab.Fixed, spec string) []c09lab.RunSpec {
+	if len(fx.GateOrders) > 0 {
+		ms := c09lab.OptionSet{Dedup: true, Multi: true, Sched: true}
+		out := []c09lab.RunSpec{{Opt: c09lab.DefaultOptions}, {Opt: ms}}
+		for _, o := range fx.GateOrders {
+			x := ms
+			x.Dedup, x.Minify = !r.Chance(1, 4), r.Chance(1, 4)
+			out = append(out, c09lab.RunSpec{Opt: x, Order: o})
+		}
+		all := c09lab.AllOptionSets()
+		for k := 0; k < 2; k++ {
+			out = append(out, c09lab.RunSpec{Opt: all[r.Pick(len(all))], Order: fx.GateOrders[r.Pick(len(fx.GateOrders))]})
+		}
+		return out
+	}
+	sets := pickSets(r, spec)
+	if fx.IHops {
+		nd := c09lab.OptionSet{}
+		have := false
+		for _, o := range sets {
+			have = have || o == nd
+		}
+		if !have {
+			sets = append(sets, nd)
+		}
+	}
+	return c09lab.SpecsOf(sets)
+}
+
 // diag prints (to stderr) what a human needs when a history shows a difference.
-func diag(h *c09lab.History, ho *c09lab.HistoryObs, sets []c09lab.OptionSet) {
+func diag(h *c09lab.History, ho *c09lab.HistoryObs, sets []c09lab.RunSpec) {
 	for i, b := range ho.Base {
 		rq := h.Reqs[i]
 		ft := c09lab.RespTree(b.Fresh)
@@ -93,14 +126,25 @@ func hist(a map[string]string) {
 	type item struct {
 		h     *c09lab.History
 		useed uint64
-		sets  []c09lab.OptionSet
+		sets  []c09lab.RunSpec
 		line  string
+	}
+	var fams []string
+	if a["fam"] != "" {
+		fams = strings.Split(a["fam"], ",")
 	}
 	items := make([]*item, n)
 	nfixed := 0
 	for i := 0; i < n; i++ {
 		var fx *c09lab.Fixed
-		if gen := common.ArgInt(a, "gen", 0); gen > 0 && i%gen == gen-1 {
+		if len(fams) > 0 {
+			// fixture families (c09lab/families.go), round robin; the member index is the history index
+			fx = c09lab.Family(fams[i%len(fams)], seed, i)
+			if fx == nil {
+				fmt.Fprintln(os.Stderr, "unknown family", fams[i%len(fams)])
+				os.Exit(2)
+			}
+		} else if gen := common.ArgInt(a, "gen", 0); gen > 0 && i%gen == gen-1 {
 			// every gen-th history runs on a configuration of the shared federation generator
 			fx = c09lab.Generated(seed, i)
 		} else {
@@ -112,8 +156,8 @@ func hist(a map[string]string) {
 		}
 		useed := r.Uint64() % 1000000
 		u := fx.Universe(common.NewRand(useed))
-		h := c09lab.GenHistory(r, fx.Name, fx.Config, u, minLen, maxLen)
-		items[i] = &item{h: h, useed: useed, sets: pickSets(r, a["opts"])}
+		h := c09lab.GenHistoryFx(r, fx, u, minLen, maxLen)
+		items[i] = &item{h: h, useed: useed, sets: specsFor(r, fx, a["opts"])}
 	}
 	if workers < 1 {
 		workers = 1
@@ -144,7 +188,7 @@ func hist(a map[string]string) {
 			}
 			defer exec.Close()
 			for it := range next {
-				ho, err := c09lab.Observe(it.h, exec, it.sets)
+				ho, err := c09lab.ObserveSpecs(it.h, exec, it.sets)
 				if err != nil {
 					failed.Store(err.Error())
 					close(done[index[it]])
@@ -153,7 +197,7 @@ func hist(a map[string]string) {
 				if a["diag"] == "1" {
 					diag(it.h, ho, it.sets)
 				}
-				it.line = ho.Sexp(it.h, it.useed, it.sets)
+				it.line = ho.SexpSpecs(it.h, it.useed, it.sets)
 				it.h = nil // the observations of a history are large: keep the line only
 				close(done[index[it]])
 			}
@@ -193,14 +237,23 @@ func histCorpus(a map[string]string) {
 	}
 	defer exec.Close()
 	var cur *c09lab.History
+	var curFx *c09lab.Fixed
 	var curKey string
 	var curSeed uint64
 	flush := func() {
 		if cur == nil || len(cur.Reqs) == 0 {
 			return
 		}
-		sets := c09lab.AllOptionSets()
-		ho, err := c09lab.Observe(cur, exec, sets)
+		sets := c09lab.SpecsOf(c09lab.AllOptionSets())
+		// a member of a gated fixture family: also every scheduler option set under every completion order
+		for _, ord := range curFx.GateOrders {
+			for _, o := range c09lab.AllOptionSets() {
+				if o.Sched && !o.Minify {
+					sets = append(sets, c09lab.RunSpec{Opt: o, Order: ord})
+				}
+			}
+		}
+		ho, err := c09lab.ObserveSpecs(cur, exec, sets)
 		if err != nil {
 			fmt.Fprintln(os.Stderr, "observe:", err)
 			os.Exit(1)
@@ -208,7 +261,7 @@ func histCorpus(a map[string]string) {
 		if a["diag"] == "1" {
 			diag(cur, ho, sets)
 		}
-		out.Line(ho.Sexp(cur, curSeed, sets))
+		out.Line(ho.SexpSpecs(cur, curSeed, sets))
 		cur = nil
 	}
 	for _, line := range readLines(a["in"]) {
@@ -227,7 +280,7 @@ func histCorpus(a map[string]string) {
 		key := fs[0] + "|" + fs[1]
 		if key != curKey {
 			flush()
-			curKey, curSeed = key, useed
+			curKey, curSeed, curFx = key, useed, fx
 			cur = &c09lab.History{CfgName: fx.Name, Config: fx.Config, U: fx.Universe(common.NewRand(useed))}
 		}
 		cur.Reqs = append(cur.Reqs, c09lab.HReq{Group: group, Sp: &c09lab.Spelled{Style: "corpus", Text: fs[5], Variables: fs[4], OpName: fs[3]}})
